@@ -480,13 +480,18 @@ pub fn drain_trace<const N: usize>(g: &Sodg<N>, order: &[usize], desc: bool) -> 
 
 /// The same on an object we own (it is consumed): no clone() involved.
 pub fn drain_trace_owned<const N: usize>(mut gc: Sodg<N>, order: &[usize], desc: bool) -> Vec<String> {
+    drain_trace_mut(&mut gc, order, desc)
+}
+
+/// The same on an object that is kept (its state after the reads is what the caller goes on with).
+pub fn drain_trace_mut<const N: usize>(gc: &mut Sodg<N>, order: &[usize], desc: bool) -> Vec<String> {
     let mut out = vec![];
     let mut order = order.to_vec();
     if desc {
         order.reverse();
     }
     for v in order {
-        let present = guarded(|| crate::real::keys_sorted(&gc)).unwrap_or_default();
+        let present = guarded(|| crate::real::keys_sorted(gc)).unwrap_or_default();
         if !present.contains(&v) {
             continue;
         }
@@ -496,7 +501,7 @@ pub fn drain_trace_owned<const N: usize>(mut gc: Sodg<N>, order: &[usize], desc:
                 out.push(format!("data({v}) panicked: {e}"));
                 break;
             }
-            Ok(r) => out.push(format!("data({v})={r:?} then keys()={:?}", guarded(|| crate::real::keys_sorted(&gc)).unwrap_or_default())),
+            Ok(r) => out.push(format!("data({v})={r:?} then keys()={:?}", guarded(|| crate::real::keys_sorted(gc)).unwrap_or_default())),
         }
     }
     out
@@ -873,6 +878,10 @@ pub fn decoy_at_the_same_address<const N: usize>(g: &mut Sodg<N>, m: &Model, lab
             let _ = g.v_print(*v).map(|t| t.len());
         }
         let _ = (g.keys().len(), g.len(), g.is_empty());
+        // a mutating call on the decoy, of an id the real graph lacks
+        if let Some(x) = (0..m.cap).find(|x| !m.present.contains_key(x)) {
+            g.add(x);
+        }
     });
     std::mem::swap(g, &mut d);
 }
